@@ -21,7 +21,7 @@ LEAN_TARGETS = ["Props.C13", "Props.C05", "Props.C14", "driver"]
 AUDIT_IMPORTS = ["Props.C13", "Props.C05", "Props.C14"]
 NS = "Pysersic.Props.C13."
 OBLIGATIONS = [NS + t for t in ["purge_keys_with_model", "purge_keys_without_model", "base_sites_removed", "model_raw", "regroup_partition",
-                                "regroup_partition_one"]] + ["Pysersic.Props.C05.likelihood_through_exposed", "Pysersic.Props.C14.result_first_argmin"]
+                                "regroup_partition_one", "repo_map_init_median", "repo_map_round_decimals"]] + ["Pysersic.Props.C05.likelihood_through_exposed", "Pysersic.Props.C14.result_first_argmin"]
 MIRRORED_FILES = ["pysersic/pysersic.py"]
 ASSUMPTIONS = [
     "optimisation quality (posterior density at the returned point, local optimality, repeatability) is outside any model: observed on real fits",
@@ -241,7 +241,8 @@ def fit_child(payload):
         try:
             rng = np.random.default_rng(c["seed"])
             N = c["N"]
-            psf = np.exp(-((np.mgrid[:7, :7][0] - 3) ** 2 + (np.mgrid[:7, :7][1] - 3) ** 2) / (2 * 1.3 ** 2))
+            ps_, sg_ = (9, 1.5) if c.get("auto_prior") else (7, 1.3)
+            psf = np.exp(-((np.mgrid[:ps_, :ps_][0] - ps_ // 2) ** 2 + (np.mgrid[:ps_, :ps_][1] - ps_ // 2) ** 2) / (2 * sg_ ** 2))
             psf /= psf.sum()
             R = RD.HybridRenderer((N, N), jnp.asarray(psf, dtype=jnp.float32))
             truth = c["truth"]
@@ -256,6 +257,8 @@ def fit_child(payload):
             props.set_position_guess((truth["xc"] + 0.3, truth["yc"] - 0.3))
             props.set_theta_guess(truth.get("theta", 0.0))
             prior = props.generate_prior(c["ptype"], sky_type="none")
+            if c.get("auto_prior"):
+                prior = PR.SourceProperties(data).generate_prior(c["ptype"], sky_type="none")     # the documented one-line route
             f = PP.FitSingle(data, rms, psf, prior, loss_func=getattr(L, c["loss"]), renderer=RD.HybridRenderer)
             res1 = f.find_MAP(jax.random.PRNGKey(c["key"]))
             res2 = f.find_MAP(jax.random.PRNGKey(c["key"]))
@@ -305,6 +308,13 @@ def gen_fit_cases(rng, n):
     return cases
 
 
+def multimodal_cases():
+    """two-component fits: the posterior has a second mode with the components swapped; the fit must still end at least as
+    high as the generating parameters, for every key (used by the search for a failing input)"""
+    truth = dict(xc=23.3, yc=24.6, flux=800.0, f_1=0.4, r_eff_1=2.5, n_1=3.5, ellip_1=0.2, r_eff_2=7.0, n_2=1.0, ellip_2=0.6, theta=2.2)
+    return [dict(N=48, ptype="doublesersic", truth=truth, snr=400.0, loss="gaussian_loss", key=k, seed=5, auto_prior=True) for k in (0, 1, 2)]
+
+
 def fit_run(ctx, cases):
     from . import render_common as RC
     w = min(ctx.workers, 8, max(1, len(cases)))
@@ -327,7 +337,7 @@ def residual(ctx):
 def oracle_search(ctx, hints):
     rng = ctx.rng("search")
     cases = [h["case"] for h in hints[:10] if isinstance(h.get("case"), dict) and "kind" in h["case"]] + gen_cases(rng, 30)
-    return evaluate_struct(ctx, cases)[1]
+    return evaluate_struct(ctx, cases)[1] + fit_run(ctx, multimodal_cases() + gen_fit_cases(ctx.rng("fit-search"), 4))
 
 
 def replay(ctx, payload):
